@@ -34,13 +34,19 @@ def do_call(I, kind, named_s, call, log, ns, nc):
     if name == "init":
         log.append(("init", initialize(I, kind, named_s)))
     elif name == "iterate":
-        log.append(("iterate", I.call_fn("engineexport_iterate", [])))
+        log.append(("iterate", I.truth(I.call_fn("engineexport_iterate", []))))
     elif name == "iterate_n":
-        log.append(("iterate_n", I.call_fn("engineexport_iterate_n", [int(arg)])))
+        log.append(("iterate_n", I.truth(I.call_fn("engineexport_iterate_n", [int(arg)]))))
     elif name == "run":
-        log.append(("run", I.call_fn("engineexport_run", [int(arg)])))
+        log.append(("run", I.truth(I.call_fn("engineexport_run", [int(arg)]))))
+    elif name == "fetch2":
+        a = fetch_output(I, ns, nc)
+        b = fetch_output(I, ns, nc)
+        log.append(("fetch", a))
+        log.append(("fetch", b))
     elif name == "sample":
         I.call_fn("engineexport_sample", [])
+        log.append(("sample", None))
     elif name == "progress":
         log.append(("progress", I.call_fn("engineexport_get_progress", [])))
     elif name == "finalize":
@@ -55,6 +61,9 @@ def driver_calls(calls):
     out = []
     for c in calls:
         name, _, arg = c.partition(":")
+        if name == "fetch2":
+            out += ["fetch", "fetch"]
+            continue
         out.append(name if not arg else "%s %s" % (name, arg))
     return out
 
